@@ -172,7 +172,7 @@ fn main() {
         }
     } }
     // ---- block-level edits: push / remove / append keep indices unique
-    for n1 in 0..=3usize { for n2 in 0..=3usize { for rm in 0..=n1 {
+    for n1 in 0..=3usize { for n2 in 0..=3usize { for rm in 0..=n1 { for rm2 in 0..=n2 {
         evals += 1;
         let mut c1 = ControlFlowGraph::new();
         let mut c2 = ControlFlowGraph::new();
@@ -182,14 +182,20 @@ fn main() {
         if rm < n1 { let idx = b1.instructions()[rm].index(); b1.remove_instruction(idx).unwrap(); exp.remove(rm); }
         let b2 = c2.new_block().unwrap();
         for k in 0..n2 { b2.assign(scalar("x", 32), expr_const(50 + k as u64, 32)); }
+        let mut exp2: Vec<u64> = (0..n2 as u64).map(|k| 50 + k).collect();
+        if rm2 < n2 { let idx = b2.instructions()[rm2].index(); b2.remove_instruction(idx).unwrap(); exp2.remove(rm2); }
         let b2 = b2.clone();
         b1.append(&b2);
-        exp.extend((0..n2 as u64).map(|k| 50 + k));
+        exp.extend(exp2.iter().cloned());
         b1.nop();
+        b1.assign(scalar("x", 32), expr_const(99, 32));
+        exp.push(99);
+        // removing by index must remove exactly the addressed instruction
+        if let Some(last) = b1.instructions().last().map(|i| i.index()) { b1.remove_instruction(last).unwrap(); exp.pop(); }
         let got: Vec<u64> = b1.instructions().iter().filter(|i| matches!(i.operation(), Operation::Assign { .. })).map(key_of).collect();
         let idx: BTreeSet<usize> = b1.instructions().iter().map(|i| i.index()).collect();
-        if got != exp || idx.len() != b1.instructions().len() { report!("block-edit", format!("n1={} remove#{} append n2={} push", n1, rm, n2), (got, idx), exp); }
-    } } }
+        if got != exp || idx.len() != b1.instructions().len() { report!("block-edit", format!("n1={} remove#{} append n2={} (remove#{} first) push push remove-last", n1, rm, n2, rm2), (got, idx), exp); }
+    } } } }
     let po: Vec<String> = per_op.iter().map(|(k, v)| format!("\"{}\":{}", k, v)).collect();
     println!("{{\"summary\":true,\"evaluations\":{},\"disagreements\":{},\"per_op\":{{{}}}}}", evals, found, po.join(","));
 }
